@@ -460,6 +460,7 @@ impl Check for Fungible {
                         Op::Approve { owner, spender, amt, live } => call("approve", (a(*owner), a(*spender), *amt, live.abs(w.now(), max_live)).into_val(e)),
                     };
                     let events = e.events().all();
+                    let decoded = w.last_events();
                     let exp = m.apply(op, *signer);
                     st.tx(kind, got);
                     // ---- C02 safety, stated without the model's outcome: who lost balance, and was that allowed?
@@ -490,49 +491,22 @@ impl Check for Fungible {
                     } else {
                         // events → reconstructed balances; exactly one mint/burn/transfer event per successful update
                         let mut n_update_events = 0;
-                        for ev in events.events() {
-                            let xdr::ContractEventBody::V0(b) = &ev.body;
-                            let t0 = match b.topics.first() {
-                                Some(xdr::ScVal::Symbol(s)) => s.to_utf8_string_lossy(),
-                                _ => std::string::String::new(),
-                            };
-                            let addr_idx = |v: &xdr::ScVal| -> Option<usize> {
-                                if let xdr::ScVal::Address(sa) = v {
-                                    w.actors.iter().position(|x| xdr::ScAddress::try_from(x).unwrap() == *sa)
-                                } else {
-                                    None
-                                }
-                            };
-                            let amt_of = |d: &xdr::ScVal| -> Option<i128> {
-                                if let xdr::ScVal::Map(Some(mp)) = d {
-                                    for en in mp.iter() {
-                                        if let (xdr::ScVal::Symbol(k), xdr::ScVal::I128(p)) = (&en.key, &en.val) {
-                                            if k.to_utf8_string_lossy() == "amount" {
-                                                return Some(((p.hi as i128) << 64) | p.lo as i128);
-                                            }
-                                        }
-                                    }
-                                }
-                                None
-                            };
-                            match t0.as_str() {
+                        for ev in decoded.iter() {
+                            let bad = || violation("events.replay_balances", "malformed", i, format!("event {} of {s:?} does not name its parties / amount as documented", ev.name));
+                            match ev.name.as_str() {
                                 "mint" => {
                                     n_update_events += 1;
-                                    let to = addr_idx(&b.topics[1]).unwrap();
-                                    *ev_bal.entry(to).or_insert(0) += amt_of(&b.data).unwrap();
+                                    *ev_bal.entry(w.party(ev, 0).ok_or_else(bad)?).or_insert(0) += ev.amt("amount").ok_or_else(bad)?;
                                 }
                                 "burn" => {
                                     n_update_events += 1;
-                                    let f = addr_idx(&b.topics[1]).unwrap();
-                                    *ev_bal.entry(f).or_insert(0) -= amt_of(&b.data).unwrap();
+                                    *ev_bal.entry(w.party(ev, 0).ok_or_else(bad)?).or_insert(0) -= ev.amt("amount").ok_or_else(bad)?;
                                 }
                                 "transfer" => {
                                     n_update_events += 1;
-                                    let f = addr_idx(&b.topics[1]).unwrap();
-                                    let t = addr_idx(&b.topics[2]).unwrap();
-                                    let am = amt_of(&b.data).unwrap();
-                                    *ev_bal.entry(f).or_insert(0) -= am;
-                                    *ev_bal.entry(t).or_insert(0) += am;
+                                    let am = ev.amt("amount").ok_or_else(bad)?;
+                                    *ev_bal.entry(w.party(ev, 0).ok_or_else(bad)?).or_insert(0) -= am;
+                                    *ev_bal.entry(w.party(ev, 1).ok_or_else(bad)?).or_insert(0) += am;
                                 }
                                 _ => {}
                             }
@@ -554,7 +528,10 @@ impl Check for Fungible {
                 if b < 0 {
                     return Err(violation("conserve.nonneg", "balance", i, format!("actor {x}: {b}")));
                 }
-                sum = sum.checked_add(b).expect("sum of balances overflows i128");
+                sum = match sum.checked_add(b) {
+                    Some(x) => x,
+                    None => return Err(violation("conserve.sum_eq_supply", "supply", i, "sum of balances exceeds i128::MAX".into())),
+                };
                 if *ev_bal.get(&x).unwrap_or(&0) != b {
                     return Err(violation("events.replay_balances", "balance", i, format!("actor {x}: events give {} real {b}", ev_bal.get(&x).unwrap_or(&0))));
                 }
